@@ -20,6 +20,9 @@ def setup_paths(tu):
     if 'init_idn' in tu.functions:
         e2, ip = cfgpaths.summarise(tu, 'init_idn')
         paths = eavobj.inline(paths, ip, 'init_idn', tu.enums)
+    for p in paths:
+        if len([e for e in p.events if e[0] == 'cond' and e[1].startswith('eav->rfc in [')]) != 1:
+            raise AnalysisBroken('eav_setup no longer selects the mode with one switch on eav->rfc (a different dispatch): the rules on its arms cannot judge it')
     return paths
 
 
@@ -84,7 +87,10 @@ def run(ck):
         for p in fp:
             fr = [e for e in p.calls('eav_result_free')]
             s = p.last_set('eav->result')
-            if len(fr) != 1 or fr[0][2] != ('eav->result',) or s is None or s[2] != 'NULL' or p.events.index(fr[0]) > p.index(lambda e: e is s): w3.append('eav_free does not release result once and then null it')
+            # either order: free(eav->result) then clear the field, or keep the old pointer, clear the field, free the old pointer
+            before = len(fr) == 1 and s is not None and p.events.index(fr[0]) < p.index(lambda e: e is s)
+            okf = len(fr) == 1 and s is not None and s[2] == 'NULL' and ((before and fr[0][2] == ('eav->result',)) or (not before and fr[0][2] == ('eav->result@pre',)))
+            if not okf: w3.append('eav_free does not release result once and null the field')
         r3.instance(f'{key}:eav_free', ok=not w3 and bool(fp), wclass='free', what='; '.join(sorted(set(w3))))
         eng, ip = cfgpaths.summarise(tu, 'eav_init')
         init_fields = set.intersection(*[set(eavobj.writes(p)) for p in ip]) if ip else set()
